@@ -58,7 +58,19 @@ def run(gen, seed, n_ops=60):
 
     async def main(loop, net, log):
         inst = c10.installation(gen, rnd)
-        w = AW.ModelWorld(gen, loop, net, log, inst, C.Knobs())
+        duo = rnd.random() < 0.35
+        w = AW.ModelWorld(gen, loop, net, log, inst, C.Knobs(), host="10.0.0.1" if duo else None)
+        other = None
+        if duo:
+            # a second client of either generation lives in the same process, with its own
+            # console: whatever happens to one of them is none of the other's business
+            g2 = rnd.choice((4, 5))
+            other = AW.ModelWorld(g2, loop, net, log, c10.installation(g2, rnd), C.Knobs(),
+                                  host="10.0.0.2")
+            if await other.init_and_sync() is not True:
+                v("C09", "second-client-init-fails")
+                return
+            bump("sessions_with_a_second_client")
         causes = []          # instants at which a fault / outage was caused or ended
         shutdown_spans = []  # (t0, t1) of shutdown() calls
         subs = []
@@ -107,9 +119,18 @@ def run(gen, seed, n_ops=60):
             out["op"] = i
             if V:
                 break
-            c = net.current()
+            if other is not None and i % 7 == 3 and other.conn() is not None:
+                await other.inject(c10.make_frame(other.gen, rnd, other, None, obs))
+                other.feed()
+                dd = RM.diff(other.model.expected(), H.snapshot(other.at))
+                if dd or other.conn() is None:
+                    v("C10", "second-client-disturbed:" + (dd[0][0].split(".")[-1] if dd
+                                                           else "connection-lost"),
+                      diff=dd[:2])
+                    break
+            c = w.conn()
             op = rnd.choices(["push", "repeat", "cmd", "fault", "adv", "cycle", "split_push"],
-                             [26, 8, 25, 14, 18, 3 if lives < 3 else 0, 6])[0]
+                             [26, 8, 25, 14, 18, 3 if lives < 3 and not duo else 0, 6])[0]
             if c is None and op in ("push", "repeat", "cmd", "split_push"):
                 op = "adv"
             if op == "split_push":
@@ -131,9 +152,9 @@ def run(gen, seed, n_ops=60):
                 w.console.knobs.apply_commands = True
                 got = [cmd["kind"] for (t, cc, f, cmd) in w.console.frames[n0:]
                        if cmd["kind"] not in REQUEST_KINDS]
-                if net.current() is not c or got != ["ac_control"]:
+                if w.conn() is not c or got != ["ac_control"]:
                     v("C13", "frame-or-command-lost-when-sending-while-receiving",
-                      connection_kept=net.current() is c, commands_seen=got, cut=k, frame=raw)
+                      connection_kept=w.conn() is c, commands_seen=got, cut=k, frame=raw)
                 bump("sends_while_receiving")
                 compare("C10", "after split push")
                 continue
@@ -277,9 +298,10 @@ def run(gen, seed, n_ops=60):
                 await asyncio.sleep(2.0 * refuse + lat + 2.5)
                 await quiesce(loop)
                 causes.append(loop.time())
-                c2 = net.current()
+                c2 = w.conn()
                 bump("faults")
-                if c2 is None or c2.id == c.id or len(net.open_conns()) != 1:
+                if c2 is None or c2.id == c.id or len(
+                        [x for x in net.open_conns() if not duo or x.host == w.host]) != 1:
                     v("C07", "not-connected-again-after-recovery-time", fault=kind,
                       refuse=refuse, latency=lat, open=[x.id for x in net.open_conns()])
                     break
@@ -332,7 +354,7 @@ def run(gen, seed, n_ops=60):
                     break
         out["end"] = loop.time()
         # ---- whole-run monitors
-        if net.max_open > 1:
+        if net.max_open > (2 if duo else 1):
             v("C07", "two-connections-open-at-once", max_open=net.max_open)
         bad = [e for e in log.events if e[2] == "LOOP.unhandled" or (
             e[2] == "LOG.error" and "Unhandled exception in background task" in e[3]["msg"])]
@@ -345,7 +367,12 @@ def run(gen, seed, n_ops=60):
                 if not any(t - 331.0 <= x <= t + 1e-9 for x in causes):
                     v("C08", "connection-reset-without-cause-while-heartbeats-are-answered",
                       at=t, causes=causes[-4:])
-        by = S.frames_by_conn(gen, log)
+        host_of = {d["conn"]: d["host"] for _, _, k, d in log.events if k == "NET.open"}
+        by = {cid: b for cid, b in S.frames_by_conn(gen, log).items()
+              if not duo or host_of.get(cid) == "10.0.0.1"}
+        if duo:
+            by.update({cid: b for cid, b in S.frames_by_conn(other.gen, log).items()
+                       if host_of.get(cid) == "10.0.0.2"})
         seq = []
         for cid, b in sorted(by.items()):
             faulted = any(wr[3] for wr in b["writes"])
@@ -374,6 +401,16 @@ def run(gen, seed, n_ops=60):
             else:
                 count[f.raw] = 1
             last_at[f.raw] = idx
+        if other is not None:
+            # the second client was left alone all the time: one connection, still in sync
+            n_open = sum(1 for _, _, k, d in log.events if k == "NET.open"
+                         and d["host"] == "10.0.0.2")
+            other.feed()
+            dd = RM.diff(other.model.expected(), H.snapshot(other.at))
+            if n_open != 1 or dd:
+                v("C07" if n_open != 1 else "C10", "second-client-disturbed-by-the-first",
+                  connections=n_open, diff=dd[:2])
+            await other.at.shutdown()
         try:
             await w.at.shutdown()
         except Exception as e:  # noqa: BLE001
